@@ -797,3 +797,32 @@ def delayed_task_of(prog, func, call, *names):
     fake = ast.Call(func=fn.args[0], args=[], keywords=[])
     ast.copy_location(fake, call)
     return callee_is(prog, func, fake, *names)
+
+
+def registry_entries(prog, modname, regname):
+    """{key: Func} of a module-level dictionary display that maps constant
+    keys to functions - lambdas written in place, or names of functions of
+    the package (a lambda that was given a name is the same entry)."""
+    mod = prog.module(modname)
+    node = mod.assigns.get(regname)
+    if not isinstance(node, ast.Dict):
+        raise AnalysisError(f"{modname}.{regname} is not a dict display")
+    out = {}
+    for k, v in zip(node.keys, node.values):
+        if not isinstance(k, ast.Constant):
+            raise AnalysisError(f"{regname}: a key is not a constant")
+        f = None
+        if isinstance(v, ast.Lambda):
+            f = prog.funcs.get(f"{mod.name}.{regname}[{k.value!r}]")
+        elif isinstance(v, (ast.Name, ast.Attribute)):
+            try:
+                dn = prog.dotted(None, mod, v)
+            except Exception:  # noqa: BLE001
+                dn = None
+            f = prog.funcs.get(dn) if dn else None
+        if f is None:
+            raise AnalysisError(
+                f"{regname}[{k.value!r}]: the entry is neither a lambda nor "
+                "a function of the package")
+        out[k.value] = f
+    return out
